@@ -16,12 +16,13 @@ MANIFEST = dict(
          "Transfer-Encoding only as lighttpd's own single 'chunked', never together with Content-Length, only "
          "in HTTP/1.1 with Host, no Proxy/Proxy-Connection, exactly one lighttpd-written Connection: close…, "
          "every other admitted field forwarded unchanged, head ++ body resp. head ++ chunked(body) under every "
-         "arrival schedule (c09_proxy_framing, _chunked_http11, _head_hop_by_hop, _fields_complete, "
+         "arrival schedule, and (proxy.forwarded off) the head re-parses by RFC 9112 to exactly those fields "
+         "(c09_proxy_framing, _chunked_http11, _head_hop_by_hop, _fields_complete, _head_decodes, "
          "_request, c09_hop_by_hop, c09_te_consumed_not_stored); HTTP/2 DATA frame bytes -> exactly the data, "
          "padding stripped, and with Content-Length never more than it / 'complete' only on exactly it "
          "(c09_h2_data_body, c09_h2_content_length_bound). PARTIAL (named _partial): QUERY_STRING = part after "
-         "the first '?' only for un-normalised targets; the proxy head re-parses to the same fields given "
-         "CR-free fields. TESTED ONLY (differential correspondence + independent Python decoders, not "
+         "the first '?' only for un-normalised targets; with proxy.forwarded options the proxy head re-parses "
+         "to the same fields only given CR-free generated values. TESTED ONLY (differential correspondence + independent Python decoders, not "
          "proved): client framing Content-Length/chunked and network segmentation (real h1_reqbody_read), "
          "h2 frame segmentation (real h2_parse_frames), stream-request-body 0/1/2, temp-file spooling, the "
          "gw_write_refill_wb hand-over gates, the mod_cgi stdin path (cgi_write_request), values of the "
